@@ -402,11 +402,13 @@ struct CamHarness : Harness
         c.last_id = -1;
         c.stop_invoked_seq = 0;
         c.getter_done = false;
+        // the streamer thread exists (and counts frames) before camera_start
+        // returns: time is measured from the invocation
+        c.start_time_ns = now_ns();
         if (camera_start(c.cam) != Device_Ok)
             oracle_fail("C18.start_failed", "camera_start failed");
         c.running = true;
         c.start_returned_seq = ++c.seq;
-        c.start_time_ns = now_ns();
         CamWorld* w = &c;
         int64_t frames = op.i("frames", 3), getpause = op.i("getpause", 0);
         int64_t trigs = op.i("trigs", 0), triggap = op.i("triggap", 0),
